@@ -216,7 +216,7 @@ class CustomFieldsGenerator:
         """Handles the generation of field types."""
         if getattr(field, "args") or method_required:
             return self.generate_product_type_method(
-                name, field_name, getattr(field, "args")
+                name, field_name, getattr(field, "args"), org_name=org_name
             )
         return generate_ann_assign(
             target=generate_name(name),
@@ -311,7 +311,11 @@ class CustomFieldsGenerator:
         )
 
     def generate_product_type_method(
-        self, name: str, class_name: str, arguments: Optional[Dict[str, Any]] = None
+        self,
+        name: str,
+        class_name: str,
+        arguments: Optional[Dict[str, Any]] = None,
+        org_name: Optional[str] = None,
     ) -> ast.FunctionDef:
         """Generates a method for a product type."""
         arguments = arguments or {}
@@ -343,7 +347,7 @@ class CustomFieldsGenerator:
                     generate_return(
                         value=generate_call(
                             func=field_class_name,
-                            args=[generate_constant(name)],
+                            args=[generate_constant(org_name or name)],
                             keywords=arguments_keyword,
                         )
                     ),
